@@ -161,30 +161,30 @@ UNREGISTERED["C16"] = {
     ],
 }
 
-LN = ["f32::ln -> memoised uninterpreted function (CBMC's logf is not functional): ground formulas are decided modulo ln being a function"]
+LN = ["f32::ln -> fixed deterministic bit-scrambling function of the argument (CBMC's logf is not functional; a memoised uninterpreted function was not digestible): ground formulas are decided modulo ln being SOME function"]
 C06S = FMT + ROUND
 
 CHECKS["C06"] = {
     "title": "opaque U-values follow EN ISO 6946, 13370 and 13789",
-    "outside": ["thorough tier only: sum(Ae*Ue) bookkeeping and basement-wall dispatch (17-27 min each); the three EN ISO 13370 kernel harnesses (u_gnd_slab_kernel, u_gnd_wall_kernel, u_gnd_dt_psi: grid values, ln uninterpreted) gave no verdict in 45 min each and are not registered: the ground-contact FORMULAS themselves are not decided, only which kernel is called with which arguments (u_ground_top, u_ground_missing quick; u_ground_wall thorough); the slab-on-ground dispatch through Wall::u_value (u_ground_slab) did not finish in 45 min and is not registered: that the slab kernel receives the right d_t, B' and psi is NOT decided",
+    "outside": ["thorough tier only: sum(Ae*Ue) bookkeeping (u_ua_sum, 17 min) and equivalent thickness / perimeter insulation (u_gnd_dt_psi, 17 min)",
                 "numeric value of ln (uninterpreted)", "tolerance statements for arbitrary reals: the mirror oracle pins formula, constants, branch structure and operand order, not conditioning",
                 "stacks deeper than 3 layers", "unconditioned spaces with more than 2 bounding exterior elements", "U of partitions between equally conditioned spaces with a neighbour (the statement does not define it): only 'has a value' is asserted"],
     "harnesses": [
         {"name": "c06::u_resistance", "bound": "0..3 layers, each detailed (lambda in {0.035,0.4,1.0,2.3} or <= 0), resistance-only (R in {k/4, k<=15}) or with a missing material; thickness in {k/16, k<=15}", "kani_args": NOOVF, "cbmc_args": FS, "stubs": FMT, "functions": ["WallCons::resistance", "ConsDb::get_material"]},
         {"name": "c06::u_exterior_kernel", "bound": "tilt in {0,60,90,120,180,300}, R in {k/8, k<=63} or None", "kani_args": NOOVF, "cbmc_args": FS, "stubs": C06S, "functions": ["Wall::u_value_exterior", "Tilt::from", "fround2"]},
         {"name": "c06::u_interior_kernel", "bound": "Ai in {(k+1)/2}, Rf in {k/4}, UA in {k/2}, q in {2k}, k<=15", "kani_args": NOOVF, "cbmc_args": FS, "stubs": C06S, "functions": ["Wall::u_value_interior_cond_uncond"]},
-        {"name": "c06::u_gnd_slab_kernel", "tier": "off", "bound": "z in {k/2,k<=7}, d_t in {(k+1)/4}, B' in {(k+1)/2}, k<=15, psi in {-k/8,k<=7}", "kani_args": NOOVF, "cbmc_args": FS, "stubs": C06S + LN, "functions": ["Wall::u_value_gnd_slab"]},
-        {"name": "c06::u_gnd_wall_kernel", "tier": "off", "bound": "z in {k/2,k<=7}, U_w, d_t in {(k+1)/4,k<=15}, h in {(k+1)/2,k<=7}", "kani_args": NOOVF, "cbmc_args": FS, "stubs": C06S + LN, "functions": ["Wall::u_value_gnd_wall"]},
-        {"name": "c06::u_gnd_dt_psi", "tier": "off", "bound": "1 ground slab of side 1..4 (+2 decoy floors), slab resistance in {k/4,k<=15}, construction present/absent, Rn in {k/2,k<=7}, D in {k/4,k<=7}, d_t in {(k+1)/4}", "kani_args": NOOVF, "cbmc_args": FS, "stubs": C06S + LN, "functions": ["Space::slab_d_t", "Space::slab_psi_gnd_ext"]},
+        {"name": "c06::u_gnd_slab_kernel", "bound": "z in {k/2,k<=7}, d_t in {(k+1)/4}, B' in {(k+1)/2}, k<=15, psi in {-k/8,k<=7}", "kani_args": NOOVF, "cbmc_args": FS, "stubs": C06S + LN, "functions": ["Wall::u_value_gnd_slab"]},
+        {"name": "c06::u_gnd_wall_kernel", "bound": "z in {k/2,k<=7}, U_w, d_t in {(k+1)/4,k<=15}, h in {(k+1)/2,k<=7}", "kani_args": NOOVF, "cbmc_args": FS, "stubs": C06S + LN, "functions": ["Wall::u_value_gnd_wall"]},
+        {"name": "c06::u_gnd_dt_psi", "tier": "thorough", "timeout_thorough": 2700, "bound": "1 ground slab of side 1..4 (+2 decoy floors), slab resistance in {k/4,k<=15}, construction present/absent, Rn in {k/2,k<=7}, D in {k/4,k<=7}, d_t in {(k+1)/4}", "kani_args": NOOVF, "cbmc_args": FS, "stubs": C06S + LN, "functions": ["Space::slab_d_t", "Space::slab_psi_gnd_ext"]},
         {"name": "c06::dispatch::u_dispatch_air", "bound": "concrete construction (R=1.75); symbolic: 4 boundary kinds x tilt {0,90,180} x construction/material present x lambda > 0", "kani_args": NOOVF, "cbmc_args": FS2K, "stubs": C06S, "functions": ["Wall::u_value", "WallCons::resistance", "Wall::u_value_exterior"]},
         {"name": "c06::dispatch::u_dispatch_partition", "timeout_quick": 1200, "bound": "concrete geometry; symbolic: 3x3 space kinds, tilt {0,90,180}, neighbour none/valid/dangling, per-space n_v present or not, building ventilation present or not", "kani_args": NOOVF, "cbmc_args": FS2K, "stubs": C06S, "timeout_quick": 1500,
          "functions": ["Wall::u_value", "Space::ua_of_external_and_ground_surfaces", "Model::global_ventilation_rate", "Space::area", "Space::height_net", "Wall::u_value_interior_cond_uncond"]},
         {"name": "c06::dispatch::u_ua_sum", "tier": "thorough", "timeout_thorough": 2700, "bound": "1 roof + 1 side element (4 boundary kinds, own/adjacent side, construction present or not) + 0..1 window (construction present or not)", "kani_args": NOOVF, "cbmc_args": FS2K, "stubs": C06S, "functions": ["Space::ua_of_external_and_ground_surfaces", "Wall::area_net", "WinCons::u_value"]},
         {"name": "c06::dispatch::u_ground_top", "bound": "buried roof, space z in {-3..1}", "kani_args": NOOVF, "cbmc_args": FS2K, "stubs": C06S + LN, "timeout_quick": 900,
          "functions": ["Wall::u_value", "Space::slab_d_t", "Space::slab_psi_gnd_ext", "Space::slab_char_dim", "Wall::u_value_gnd_slab", "Wall::u_value_gnd_wall"]},
-        {"name": "c06::dispatch::u_ground_slab", "tier": "off", "bound": "slab on ground, space z in {-3..1}", "kani_args": NOOVF, "cbmc_args": FS2K, "stubs": C06S + LN, "timeout_quick": 900,
+        {"name": "c06::dispatch::u_ground_slab", "bound": "slab on ground, space z in {-3..1}", "kani_args": NOOVF, "cbmc_args": FS2K, "stubs": C06S + LN, "timeout_quick": 900,
          "functions": ["Wall::u_value", "Space::slab_d_t", "Space::slab_psi_gnd_ext", "Space::slab_char_dim", "Wall::u_value_gnd_slab", "Wall::u_value_gnd_wall"]},
-        {"name": "c06::dispatch::u_ground_wall", "tier": "thorough", "timeout_thorough": 2700, "bound": "basement wall, space z in {-3..1}", "kani_args": NOOVF, "cbmc_args": FS2K, "stubs": C06S + LN, "timeout_quick": 900,
+        {"name": "c06::dispatch::u_ground_wall", "bound": "basement wall, space z in {-3..1}", "kani_args": NOOVF, "cbmc_args": FS2K, "stubs": C06S + LN, "timeout_quick": 900,
          "functions": ["Wall::u_value", "Space::slab_d_t", "Space::slab_psi_gnd_ext", "Space::slab_char_dim", "Wall::u_value_gnd_slab", "Wall::u_value_gnd_wall"]},
         {"name": "c06::dispatch::u_ground_missing", "bound": "ground element whose space is missing or has no ground slab", "kani_args": NOOVF, "cbmc_args": FS2K, "stubs": C06S + LN, "timeout_quick": 900,
          "functions": ["Wall::u_value", "Space::slab_d_t", "Space::slab_psi_gnd_ext", "Space::slab_char_dim", "Wall::u_value_gnd_slab", "Wall::u_value_gnd_wall"]},
